@@ -6,6 +6,13 @@ import json, os, subprocess, sys, glob, time
 ROOT = "/verif"
 res = []
 names = sys.argv[1:]
+# evidence files describe the unchanged tree: keep them as they are (the runs below overwrite them)
+saved = {f: open(f, "rb").read() for f in glob.glob(ROOT + "/evidence/*.json")}
+import atexit
+def _restore():
+    for f, b in saved.items():
+        open(f, "wb").write(b)
+atexit.register(_restore)
 for d in sorted(glob.glob(ROOT + "/seeded/*/")):
     name = os.path.basename(d.rstrip("/"))
     if names and not any(n in name for n in names):
